@@ -21,6 +21,9 @@ SumSeq(s) == IF s = <<>> THEN 0 ELSE Head(s) + SumSeq(Tail(s))
 RECURSIVE Flatten(_)
 Flatten(ss) == IF ss = <<>> THEN <<>> ELSE Head(ss) \o Flatten(Tail(ss))
 
+\* force a lazily defined function 1..n -> X into an explicit tuple (TLC state serialisation)
+Seqify(f) == SubSeq(f, 1, Len(f))
+
 InSeq(s, v) == \E j \in DOMAIN s : s[j] = v
 FirstIdx(s, v) == CHOOSE j \in DOMAIN s : s[j] = v /\ \A m \in 1..(j-1) : s[m] # v
 RemoveAt(s, j) == SubSeq(s, 1, j-1) \o SubSeq(s, j+1, Len(s))
